@@ -159,9 +159,35 @@ class World:
 
         return build(self.desc)
 
+    def late_schema(self):
+        """The same schema, except that it has been enumerated, looked up and given a parser once
+        while the last leaf of its last nested schema was still missing; then that leaf is added."""
+        cinco = self.cinco
+        desc = self.desc
+        fields = list(codec.seq(desc["fields"]))
+        nested = [i for i, (k, f) in enumerate(fields) if f["kind"] == "schema" and not f.get("ctype") and len(list(codec.seq(f["fields"]))) > 1]
+        if not nested:
+            return cfgadapter.build_schema_topdown(cinco, desc)
+        i = nested[-1]
+        key, sub = fields[i]
+        sub_fields = list(codec.seq(sub["fields"]))
+        last_key, last_f = sub_fields[-1]
+        if last_f["kind"] in ("schema", "virtual"):
+            return cfgadapter.build_schema_topdown(cinco, desc)
+        partial = dict(desc, fields=fields[:i] + [[key, dict(sub, fields=sub_fields[:-1])]] + fields[i + 1:])
+        schema = cfgadapter.build_schema_topdown(cinco, partial)
+        cinco.get_all_fields(schema)
+        cinco.generate_argparse_parser(schema)
+        schema()
+        setattr(getattr(schema, key), last_key, cfgadapter.fieldmap.build(cinco, last_f))
+        return schema
+
     def describe(self, mode="topdown"):
         cinco = self.cinco
         schema, cfg = self.schema, self.cfg
+        if mode == "late":
+            schema = self.late_schema()
+            cfg = schema()
         if mode == "mounted":
             schema = self.mounted_schema()
             cfg = schema()
